@@ -250,23 +250,23 @@ func (c *compiler) assembleLine(in sourceLine) (Instruction, error) {
 		bVal = b
 	}
 
-	aVal = aVal % int(c.m)
-	if aVal < 0 {
-		aVal = (int(c.m) + aVal) % int(c.m)
-	}
-	bVal = bVal % int(c.m)
-	if bVal < 0 {
-		bVal = (int(c.m) + bVal) % int(c.m)
-	}
-
 	return Instruction{
 		Op:     op,
 		OpMode: opMode,
 		AMode:  aMode,
-		A:      Address(aVal),
+		A:      c.fold(aVal),
 		BMode:  bMode,
-		B:      Address(bVal),
+		B:      c.fold(bVal),
 	}, nil
+}
+
+// fold reduces the value of an operand into the core. The arithmetic is
+// done on addresses: a core size does not have to fit into an int.
+func (c *compiler) fold(val int) Address {
+	if val < 0 {
+		return (c.m - Address(-val)%c.m) % c.m
+	}
+	return Address(val) % c.m
 }
 
 func (c *compiler) compile() (WarriorData, error) {
